@@ -205,11 +205,13 @@ def build(pool=None, tag='core', shards=16, force=False):
     if bad:
         p, r = bad[0]
         sys.stderr.write('COMPILE FAILED %s\n%s\n' % (p, r.stderr[-6000:]))
-        raise SystemExit(3)
+        shutil.rmtree(out, ignore_errors=True)
+        raise HarnessBuildError('COMPILE FAILED %s\n%s' % (p, r.stderr[-6000:]))
     r = run([CXX] + ([f for f in SANFLAGS if f != '-fno-sanitize-recover=all']) + [p[:-4] + '.o' for p in files] + ['-o', exe], timeout=600)
     if r.returncode != 0:
         sys.stderr.write('LINK FAILED\n' + r.stderr[-4000:])
-        raise SystemExit(3)
+        shutil.rmtree(out, ignore_errors=True)
+        raise HarnessBuildError('LINK FAILED\n' + r.stderr[-4000:])
     log('harness built in %.1fs -> %s' % (time.time() - t0, out))
     return out
 
